@@ -1,6 +1,6 @@
 (* Extraction of the C03 model (ExtrOcamlBasic only; Z/positive/nat stay inductive). *)
 From LV Require Import Region.RegionDefs Gen.Consts_C03 Gen.Funs_C03
-     Wire.CountsModel Wire.CapsModel Wire.UpdateModel Wire.ClipModel Wire.S2CModel.
+     Wire.CountsModel Wire.CapsModel Wire.UpdateModel Wire.S2CModel.
 Require Import ExtrOcamlBasic.
 Extraction Language OCaml.
 Extraction "../build/ocaml/C03/model.ml"
